@@ -277,11 +277,18 @@ RULE = ("random curves: 1-5 sections on rational grids (and random doubles), 8 s
 
 
 def run(tier):
-    return corr.standard_run("C03", tier, [UNIT], 600, 6000, TRUSTED, RULE)
+    def extra(rep, tier_, sd):
+        # the derived discharge curve of a vehicle type and the curve a component's battery is built with (components.py)
+        import c01
+        c01.components_glue(rep, tier_, sd)
+    return corr.standard_run("C03", tier, [UNIT], 600, 6000, TRUSTED, RULE, extra=extra)
 
 
 def replay(payload):
     inp = payload["input"]
+    if inp.get("unit") == "glue":
+        import c01
+        return c01.replay(payload)
     case = inp["case"]
     out = UNIT.run_impl(case)
     v = UNIT.check_property(case, out)
